@@ -416,4 +416,180 @@ theorem upFacts {c S rest : Str} (h : Cleaned c S rest) (hu : UpperEsc c) {p : P
           rw [hu0] at this
           exact this
 
+/-! ### joins -/
+
+theorem upperEsc_join {sep : Char} (hs : Sep sep) (parts : List Str) :
+    UpperEsc (join [sep] parts) ↔ ∀ p ∈ parts, UpperEsc p := by
+  induction parts with
+  | nil => simp [join, upperEsc_nil]
+  | cons a rest ih =>
+    cases rest with
+    | nil => simp [join]
+    | cons b r =>
+      have e : join [sep] (a :: b :: r) = a ++ sep :: join [sep] (b :: r) := by simp [join]
+      rw [e, upperEsc_append_sep hs, ih]
+      simp
+
+/-- the canonical query (unquoted mode) keeps escapes upper-case -/
+theorem upperEsc_canonQuery {q : Str} (h : UpperEsc q) : UpperEsc (canonQuery false q) := by
+  have sa : Sep '&' := ⟨by decide, by decide⟩
+  have se : Sep '=' := ⟨by decide, by decide⟩
+  have hU : (0x25 : UInt8) ∈ Gen.Quote.unsafeForQueryItem := by decide
+  unfold canonQuery
+  simp only [Bool.false_eq_true, if_false]
+  rw [safeSerializeQsl_eq, upperEsc_join sa]
+  intro x hx
+  simp only [List.mem_map, unquoteQsl] at hx
+  obtain ⟨kv', ⟨⟨k, v⟩, hkv, rfl⟩, rfl⟩ := hx
+  -- the item (k, v) comes from a piece of q
+  rw [safeQslIter_eq] at hkv
+  simp only [List.mem_map] at hkv
+  obtain ⟨item, hitem, hcut⟩ := hkv
+  have hpieces := (upperEsc_join sa (splitOn q '&')).1 (by rw [join_splitOn]; exact h)
+  have hitemU := hpieces item hitem
+  have hs := splitFirst_spec '=' item
+  rw [hcut] at hs
+  cases v with
+  | none =>
+    simp only at hs
+    simp only [serializeItem, Option.map_none]
+    apply upperEsc_safelyUnquote _ hU
+    rw [← hs.2]; exact hitemU
+  | some v0 =>
+    simp only at hs
+    rw [hs.2] at hitemU
+    have hkv := (upperEsc_append_sep se _ _).1 hitemU
+    simp only [serializeItem, Option.map_some]
+    have e : unquoteQueryItem k ++ ['='] ++ unquoteQueryItem v0 =
+        unquoteQueryItem k ++ '=' :: unquoteQueryItem v0 := by simp
+    rw [e]
+    exact (upperEsc_append_sep se _ _).2
+      ⟨upperEsc_safelyUnquote _ hU hkv.1, upperEsc_safelyUnquote _ hU hkv.2⟩
+
+theorem upperEsc_canonOpt (U : List UInt8) (hU : (0x25 : UInt8) ∈ U) {o : Option Str}
+    (h : ∀ u, o = some u → UpperEsc u) :
+    UpperEsc (strOf (canonOpt false (safelyUnquote U) o)) ∧
+    UpperEsc ((canonOpt false (safelyUnquote U) o).getD []) := by
+  cases o with
+  | none => simp [canonOpt, strOf_none, upperEsc_nil]
+  | some u =>
+    by_cases hu : u.isEmpty = true
+    · have : u = [] := by simpa using hu
+      subst this
+      simp [canonOpt, strOf_some, upperEsc_nil]
+    · simp only [canonOpt, hu, Bool.false_eq_true, if_false, strOf_some, requote, Option.getD_some]
+      exact ⟨upperEsc_safelyUnquote U hU (h u rfl), upperEsc_safelyUnquote U hU (h u rfl)⟩
+
+/-! ## the cleaning pass on a printed URL -/
+
+theorem upperEsc_append_of_sepHead {a b : Str} (ha : UpperEsc a) (hb : UpperEsc b)
+    (h : b = [] ∨ ∃ d b', b = d :: b' ∧ Sep d) : UpperEsc (a ++ b) := by
+  rcases h with rfl | ⟨d, b', rfl, hd⟩
+  · simpa using ha
+  · exact (upperEsc_append_sep hd _ _).2 ⟨ha, (upperEsc_cons_sep hd _).1 hb⟩
+
+theorem strip_id (s : Str) (h1 : ∀ c, s.head? = some c → isSpace c = false)
+    (h2 : ∀ c, s.getLast? = some c → isSpace c = false) : strip s = s := by
+  unfold strip
+  have hl : lstrip s = s := by
+    unfold lstrip
+    cases s with
+    | nil => rfl
+    | cons c r => simp [List.dropWhile_cons, h1 c rfl]
+  rw [hl]
+  unfold rstrip
+  have : s.reverse.dropWhile isSpace = s.reverse := by
+    cases hr : s.reverse with
+    | nil => rfl
+    | cons c r =>
+      have : s.getLast? = some c := by
+        rw [← List.head?_reverse, hr]; rfl
+      simp [List.dropWhile_cons, h2 c this]
+  rw [this, List.reverse_reverse]
+
+theorem stripControl_id {s : Str} (h : NoCtl s) : stripControl s = s := by
+  unfold stripControl
+  rw [List.filter_eq_self]
+  intro a ha; simp [h a ha]
+
+theorem alpha_not_space {c : Char} (h : isAsciiAlpha c = true) : isSpace c = false := by
+  rw [isAsciiAlpha_iff] at h
+  cases hs : isSpace c with
+  | false => rfl
+  | true => exact absurd h (by have := isSpace_not_lower hs; simp only [isSpace, spaceCodes,
+      List.contains_cons, List.contains_nil, Bool.or_false, Bool.or_eq_true, beq_iff_eq] at hs; omega)
+
+/-- `ensure_protocol` leaves `letters://…` alone -/
+theorem ensureProtocol_id (sc Z dp : Str) (hne : sc ≠ []) (hall : ∀ c ∈ sc, isAsciiAlpha c = true)
+    (hlen : sc.length ≤ 64) :
+    ensureProtocol (sc ++ ':' :: '/' :: '/' :: Z) dp = sc ++ ':' :: '/' :: '/' :: Z := by
+  have hsw : startsWith (sc ++ ':' :: '/' :: '/' :: Z) ['/', '/'] = false := by
+    cases sc with
+    | nil => exact absurd rfl hne
+    | cons c r =>
+      have : c ≠ '/' := by
+        intro e; have := hall c (by simp); rw [e] at this; revert this; decide
+      simp [startsWith_cons_cons, this]
+  have htw : (sc ++ ':' :: '/' :: '/' :: Z).takeWhile isAsciiAlpha = sc :=
+    takeWhile_append_stop _ sc _ hall (fun c hc => by simp at hc; subst hc; decide)
+  have hpl : protoLen (sc ++ ':' :: '/' :: '/' :: Z) = some (sc.length + 3) := by
+    unfold protoLen
+    rw [if_neg (by simp [hsw])]
+    simp only [htw]
+    have hd : (sc ++ ':' :: '/' :: '/' :: Z).drop sc.length = ':' :: '/' :: '/' :: Z := by simp
+    have h1 : 1 ≤ sc.length := by cases sc with | nil => exact absurd rfl hne | cons _ _ => simp
+    rw [if_pos ⟨h1, hlen, by rw [hd]; simp [startsWith_cons_cons, startsWith_nil]⟩]
+  unfold ensureProtocol
+  rw [hpl]
+  simp [hsw]
+
+/-- what the whole-function idempotence needs from the path rule (proved separately, in
+`Lemmas/Normpath.lean`): the canonical path is a fixed point of the path rule whatever the
+"has more" flag, a second unquoting does nothing to it, and it keeps escapes upper-case -/
+structure PathIdem : Prop where
+  idem : ∀ (p : Str) (m m' : Bool), AbsPath p → canonPath (canonPath p m) m' = canonPath p m'
+  unq : ∀ (p : Str) (m : Bool), AbsPath p → unquotePath (canonPath p m) = canonPath p m
+  upper : ∀ (p : Str) (m : Bool), AbsPath p → UpperEsc p → UpperEsc (canonPath p m)
+
+section
+variable {puny : Str → Str} (hpc : PunyClean puny) (sf : Bool) {S rest : Str} {p : Parsed}
+  (h : FromParse S rest p)
+include hpc h
+
+/-- the printed URL, spelled out (unquoted mode; an authority is printed) -/
+theorem printed_eq
+    (hwf : WF (canonParts puny false sf p).scheme (canonParts puny false sf p).netloc
+      (canonParts puny false sf p).path (canonParts puny false sf p).query
+      ((canonParts puny false sf p).fragment.getD []))
+    (hnl : (canonParts puny false sf p).netloc ≠ [] ∨
+      inTable usesNetloc20 (canonParts puny false sf p).scheme = true) :
+    urlunsplit (canonParts puny false sf p) =
+      lower S ++ ':' :: '/' :: '/' :: ((canonParts puny false sf p).netloc ++
+        ((canonParts puny false sf p).path ++
+          (queryPart (canonParts puny false sf p).query ++
+            fragPart ((canonParts puny false sf p).fragment.getD [])))) := by
+  have hscheme : (canonParts puny false sf p).scheme = lower S := h.split.scheme
+  have hsne : lower S ≠ [] := by
+    obtain ⟨⟨c, r, e, _⟩, _⟩ := h.shaped; rw [e]; simp [Py.lower]
+  rw [urlunsplit_eq_urlunsplit20, urlunsplit20_eq]
+  have hb : bodyOf (canonParts puny false sf p).scheme (canonParts puny false sf p).netloc
+      (canonParts puny false sf p).path =
+      '/' :: '/' :: ((canonParts puny false sf p).netloc ++ (canonParts puny false sf p).path) := by
+    apply bodyOf_true
+    · rcases hnl with h1 | h1
+      · simp [h1]
+      · by_cases h0 : (canonParts puny false sf p).netloc = []
+        · have h1' : inTable usesNetloc20 (lower S) = true := by rw [← hscheme]; exact h1
+          have hs' : (canonParts puny false sf p).scheme ≠ [] := by rw [hscheme]; exact hsne
+          simp [h0, h1, hs', hwf.path_no2 h0]
+        · simp [h0]
+    · apply hwf.path_abs
+      rcases hnl with h1 | h1
+      · exact Or.inl h1
+      · exact Or.inr ⟨by rw [hscheme]; exact hsne, h1⟩
+  rw [hb, hscheme]
+  simp [schemePart, hsne]
+
+end
+
 end Ural.CanonIdem
